@@ -361,7 +361,14 @@ impl Engine for CrashEngine {
             let verdict = match reply {
                 Reply::Outcome { class, canary, digest } => {
                     outcome_class = class.clone();
-                    if !class.starts_with("panic:") {
+                    // only outcomes that were obtained twice under different hash keys (long-lived
+                    // thread and a brand-new one) are candidates for the fresh-process comparison
+                    let echoed = digest.ends_with("+e");
+                    let digest = digest.trim_end_matches("+e").to_string();
+                    if canary == "thread_echo_unstable" {
+                        out.bump("echo.outcome-depends-on-hash-keys");
+                    }
+                    if !class.starts_with("panic:") && echoed {
                         seen.push((d.entry, d.bytes.clone(), class.clone(), digest.clone(), idx));
                     }
                     if canary != "canary_skip" {
@@ -525,7 +532,29 @@ impl Engine for CrashEngine {
                 out.bump("replay.fresh-process");
                 match isolated_bare(entry as u32, &bytes) {
                     Ok(Reply::Outcome { class: c2, digest: d2, .. }) => {
+                        let d2 = d2.trim_end_matches("+e").to_string();
                         if c2 != class || d2 != digest {
+                            // an outcome that depends on the hash keys (random per process) is not
+                            // history dependence: six more fresh processes must all say the same
+                            let mut stable = true;
+                            for _ in 0..6 {
+                                match isolated_bare(entry as u32, &bytes) {
+                                    Ok(Reply::Outcome { class: c3, digest: d3, .. }) => {
+                                        if c3 != c2 || d3.trim_end_matches("+e") != d2 {
+                                            stable = false;
+                                            break;
+                                        }
+                                    }
+                                    _ => {
+                                        stable = false;
+                                        break;
+                                    }
+                                }
+                            }
+                            if !stable {
+                                out.bump("replay.outcome-depends-on-hash-keys");
+                                continue;
+                            }
                             let signature = format!("crash/history-dependence.{name}");
                             if known.is_known(PROP, &signature).is_some() {
                                 out.known_hits.push(format!("{PROP}:{signature}"));
